@@ -2,7 +2,7 @@
 from .sorts import (INT, NAT, BOOL, REAL, STR, NONE, Opaque, SeqOf, SetOf, MapOf, Ctor,
                     Union as _Union, Opt as _Opt,
                     TupleOf, FuncSort, ADTVal, Sort, OutsideSubset)
-from .values import Inline, Effect, TypeTag, CtorFn, UFn, Skip, Handler, SV, PyTuple, Lit, NONEV, IterView, Namespace
+from .values import GlobalVar, Inline, Effect, TypeTag, CtorFn, UFn, Skip, Handler, SV, PyTuple, Lit, NONEV, IterView, Namespace
 from .contracts import function, spec, lemma, custom, REGISTRY, SPECFNS, LEMMAS
 from .symexec import register_opaque, _ALL_UNIONS
 
